@@ -151,6 +151,32 @@ def run(E: Engine, rep: Report, tier: str) -> dict:
             lists[n.targets[0].id] = [e.value for e in n.value.elts if isinstance(e, ast.Constant)]
         if isinstance(n, ast.Call) and isinstance(n.func, ast.Attribute) and n.func.attr == "append" and isinstance(n.func.value, ast.Name) and n.func.value.id in lists and n.args and isinstance(n.args[0], ast.Constant):
             lists[n.func.value.id].append(n.args[0].value)
+    # a conditionally compared parameter must be compared whenever it matters on EITHER device:
+    # the condition has to be symmetric in the old and the new channel object
+    from ..absval import abstractor as _abs
+
+    abm = _abs(E.flow(ccm))
+    for n in ast.walk(ccm.node):
+        if isinstance(n, ast.Call) and isinstance(n.func, ast.Attribute) and n.func.attr == "append" and isinstance(n.func.value, ast.Name) and n.func.value.id in lists and n.args and isinstance(n.args[0], ast.Constant):
+            # innermost `if` whose body holds this append
+            holder = None
+            for cand in ast.walk(ccm.node):
+                if isinstance(cand, ast.If) and any(x is n for b in cand.body for x in ast.walk(b)):
+                    if holder is None or any(x is cand for x in ast.walk(holder)):
+                        holder = cand
+            args_seen = set()
+            if holder is not None:
+                for c in ast.walk(holder.test):
+                    if isinstance(c, ast.Call):
+                        for a in c.args:
+                            if isinstance(a, ast.Name) and a.id.endswith("_ch_obj"):
+                                args_seen.add(a.id)
+                    if isinstance(c, ast.Attribute) and isinstance(c.value, ast.Name) and c.value.id.endswith("_ch_obj"):
+                        args_seen.add(c.value.id)
+            cond_on_channel = bool(args_seen)
+            if cond_on_channel:
+                rep.check({"old_ch_obj", "new_ch_obj"} <= args_seen, "TABLE", f"strict-compare|{n.args[0].value}|condition-symmetric", f"'{n.args[0].value}' is compared whenever the condition holds for the old OR the new channel",
+                          f"'{n.args[0].value}' is only compared under a condition on {sorted(args_seen)}: when the condition holds for the other device only, the parameter differs unnoticed and the timeline changes", E.where(ccm, n))
     loop_lists = set()
     for n in ast.walk(ccm.node):
         if isinstance(n, ast.For) and isinstance(n.iter, ast.Name) and n.iter.id in lists:
@@ -214,6 +240,19 @@ def run(E: Engine, rep: Report, tier: str) -> dict:
         if must not in timing:
             rep.error(f"T_timing derivation lost '{must}' (visited {len(visited)} functions): the derivation is broken")
 
+    # the EOM checks cover every channel that was *ever* put in EOM mode (from the call log), not only those still in it
+    aec = None
+    for n in ast.walk(sw.node):
+        if isinstance(n, ast.Assign) and isinstance(n.targets[0], ast.Name) and n.targets[0].id == "active_eom_channels":
+            aec = n
+    if aec is None:
+        raise AnalysisError("anchor: active_eom_channels not found in switch_device")
+    va = _abs(E.flow(sw)).av(aec.value)
+    from .common import strip_prefixes as _sp
+
+    roots = _sp(va.roots)
+    ok = any(r.startswith("seq._calls") for r in roots) and any(r.startswith("seq._to_build_calls") for r in roots) and "enable_eom_mode" in norm(aec.value)
+    rep.check(ok, "TABLE", "switch_device|eom-channels-from-call-log", "EOM channels = channels of every recorded enable_eom_mode call (regular and to-build)", f"the list of EOM channels no longer derives from all recorded enable_eom_mode calls ({va.show()[:160]}): a channel whose EOM block is already closed would escape the EOM configuration and sample comparison", E.where(sw, aec))
     # --------------------------------------------------------------- OWN
     E.prepare_summaries()
     for f, label in ((sw, "switch_device"), (E.method(SEQ, "switch_register"), "Sequence.switch_register")):
